@@ -13,8 +13,8 @@ LEVEL = "proof"
 EXTRA_PROPS = ["QuantemModel.Props.C12Ext"]   # growth 6: the conversions for every max_order (loop model = translated text at 5)
 MANIFEST_ENTRY = {
     "category": "proof",
-    "text": "Lean 4 theorems at ℝ about the *translated* source (Python ast → Lean partial evaluator, regenerated from the repo on every run): the polar series equals the spec χ=(2π/λ)Σ α^{n+1}/(n+1)·C_nm cos(m(φ−φ_nm)) over the 14-entry (n,m) table = all 25 symbols; each symbol individually (single_symbol, every_symbol_contributes) in surface AND gradients; the `if any(k in coefs…)` guards, translated faithfully with a presence predicate, are transparent for every set of present keys (guards_transparent) and list every symbol (guard_complete); Σ cart_l·basis_l = χ with cart = polar_to_cartesian(polar); the basis loop translated over a DYNAMIC label list returns column i = basis function of labels[i] for every list (basis_column_order); Cartesian→polar→Cartesian is the identity on all 25 labels, polar→Cartesian→polar returns the coefficients for C>0, mφ∈(−π,π] and otherwise still the identical surface; merge adds the deltas' basis expansion; dchi_dk = λ·∂χ/∂α, α·dchi_dphi = λ·∂χ/∂φ and (dchi_dx, dchi_dy) = λ·∇_{x,y}χ through the source's own sqrt/atan2 polar coordinates at every point but the origin (generated aberration_surface_cartesian_gradients, branch cut via 2π-periodicity); the key/value loop bodies of the three alias implementations, translated, equal the hand model's steps for every key/value (alias_steps_are_translated, defocus_sign_in_source) and 'defocus' ↦ C10 = −defocus for every input dict by induction; the fit END TO END: _passively_rotate_grid, polar_coordinates, _torch_polar (on an abstract svd meeting its spec) and the whole extraction part of fit_aberrations_from_shifts are translated; lateral shifts of a quadratic set are basis@(R_{−θ}·A) at every pixel; a full-column-rank basis has non-zero Gram determinant and the normal equations return the matrix; the translated _torch_polar returns the RIGHT polar factor = the unique polar decomposition (torch_polar_is_polar, polar_decomposition_unique); the translated extraction returns (C10,C12,φ12,θ) for every |θ|<π/2 together with every C12>0, |C10|>C12, φ12∈(−π/2,π/2] (fit_roundtrip_translated_polar). THE ALIAS CODE AS STATE (round 5): the probe_params setter as a state machine on _probe_params with values float() rejects — an assignment is rejected iff a predicate of the dict alone fails, a rejected assignment (key check OR part-way through the conversions) leaves the whole state unchanged, rejected assignments can be deleted from EVERY history (probe_params_rejected_calls_are_noops), what an accepted one stores is the hand model of the defocus theorems (probe_params_setter_is_hand_model), and the last accepted defocus = x gives C10 = −x after any history (probe_params_history_defocus); HyperparameterState with the write-backs of optimize_/grid_search_hyperparameters and the cross-correlation / least-squares fits: for every initial dict, every history of operations and every override only the 25 polar symbols are ever handed to the surface code (hstate_only_symbols_reach_surface), and searching over `defocus` is searching over C10 = −defocus (entry_points_alias_eq_canonical). Float correspondence of every generated definition (guards and dynamic label lists included), the alias models, the two state machines (whole state after every step of generated histories, rejected steps included) and the fit against the real torch code; autograd/consistency predicates, alias-form-vs-canonical-form runs of every DirectPtychography entry point on a real tiny instance, and same-prior-twice merges on the real code as failing-input search.",
-    "note": "Trusted: Lean kernel + propext/Classical.choice/Quot.sound; the translator (validated by the correspondence on the same functions); IEEE rounding and torch are outside the theorems. Hand-modelled and only tied by correspondence: torch.linalg.lstsq (as normal equations), torch.linalg.svd (abstract, assumed to meet IsSVD), the k-grid/mask plumbing of the fit (pinned to a template by the translator) and of _return_lateral_shifts (fftfreq grid, `/2/np.pi`), the plumbing around the alias loops (key validation, nested-dict recursion, zero fill, float32 conversion). Labels outside the 25-label table (e.g. 'C77_a') are outside the model. Gradient theorems are partial derivatives (HasDerivAt), not a joint Fréchet derivative. Round 5: the state machines (PState, HState) are hand models tied by correspondence only (not translated); the search write-back is modelled GIVEN the best-parameter dict the search returns (optuna / the grid loop themselves are not modelled; the real methods run on an attribute stub whose reconstruct() only resolves the coefficients, and on a real tiny DirectPtychography in the entry stream); nested dicts inside probe_params are modelled to depth 1; the top-level 'defocus' REPORT of probe_params is not kept in step with C10 by the code (probe_params_reported_defocus_counterexample, replayed every run) — no accepted alias is misread, so this is recorded, not flagged.",
+    "text": "Lean 4 theorems at ℝ about the *translated* source (Python ast → Lean partial evaluator, regenerated from the repo on every run): the polar series equals the spec χ=(2π/λ)Σ α^{n+1}/(n+1)·C_nm cos(m(φ−φ_nm)) over the 14-entry (n,m) table = all 25 symbols; each symbol individually (single_symbol, every_symbol_contributes) in surface AND gradients; the `if any(k in coefs…)` guards, translated faithfully with a presence predicate, are transparent for every set of present keys (guards_transparent) and list every symbol (guard_complete); Σ cart_l·basis_l = χ with cart = polar_to_cartesian(polar); the basis loop translated over a DYNAMIC label list returns column i = basis function of labels[i] for every list (basis_column_order); Cartesian→polar→Cartesian is the identity on all 25 labels, polar→Cartesian→polar returns the coefficients for C>0, mφ∈(−π,π] and otherwise still the identical surface; merge adds the deltas' basis expansion; dchi_dk = λ·∂χ/∂α, α·dchi_dphi = λ·∂χ/∂φ and (dchi_dx, dchi_dy) = λ·∇_{x,y}χ through the source's own sqrt/atan2 polar coordinates at every point but the origin (generated aberration_surface_cartesian_gradients, branch cut via 2π-periodicity); the key/value loop bodies of the three alias implementations, translated, equal the hand model's steps for every key/value (alias_steps_are_translated, defocus_sign_in_source) and 'defocus' ↦ C10 = −defocus for every input dict by induction; the fit END TO END: _passively_rotate_grid, polar_coordinates, _torch_polar (on an abstract svd meeting its spec) and the whole extraction part of fit_aberrations_from_shifts are translated; lateral shifts of a quadratic set are basis@(R_{−θ}·A) at every pixel; a full-column-rank basis has non-zero Gram determinant and the normal equations return the matrix; the translated _torch_polar returns the RIGHT polar factor = the unique polar decomposition (torch_polar_is_polar, polar_decomposition_unique); the translated extraction returns (C10,C12,φ12,θ) for every |θ|<π/2 together with every C12>0, |C10|>C12, φ12∈(−π/2,π/2] (fit_roundtrip_translated_polar). THE ALIAS CODE AS STATE (round 5): the probe_params setter as a state machine on _probe_params with values float() rejects — an assignment is rejected iff a predicate of the dict alone fails, a rejected assignment (key check OR part-way through the conversions) leaves the whole state unchanged, rejected assignments can be deleted from EVERY history (probe_params_rejected_calls_are_noops), what an accepted one stores is the hand model of the defocus theorems (probe_params_setter_is_hand_model), and the last accepted defocus = x gives C10 = −x after any history (probe_params_history_defocus); HyperparameterState with the write-backs of optimize_/grid_search_hyperparameters and the cross-correlation / least-squares fits: for every initial dict, every history of operations and every override only the 25 polar symbols are ever handed to the surface code (hstate_only_symbols_reach_surface), and searching over `defocus` is searching over C10 = −defocus (entry_points_alias_eq_canonical). Float correspondence of every generated definition (guards and dynamic label lists included), the alias models, the two state machines (whole state after every step of generated histories, rejected steps included) and the fit against the real torch code; autograd/consistency predicates, alias-form-vs-canonical-form runs of every DirectPtychography entry point on a real tiny instance, and same-prior-twice merges on the real code as failing-input search. ROUND 6 (Props/C12Ext.lean): the two conversions as the LOOPS of the source with their max_order argument (Model/AberrationOrder.lean): exactly the harmonics 1 ≤ n ≤ max_order, m ≤ n+1, m ≡ n+1 (mod 2) are visited for EVERY max_order (mem_harmonics; the top harmonic m = n+1 of every order up to and including max_order: top_harmonic_visited; nothing beyond: no_harmonic_beyond), a smaller max_order returns a prefix of a larger one (p2c_order_prefix, c2p_order_prefix, all sizes), and at 5 the loop model IS the translated text (p2c_order5_is_translated, c2p_order5_is_translated, any carrier) so every explicit max_order ≤ 5 returns a prefix of the lists the round-trip theorems speak about; aberration_surface_grad at a grid pixel (Model/AberrationGrid.lean): the parallax shifts are that gradient / 2π (lateral_shift_is_surface_grad) and it equals λ·∇χ in the scattering-angle coordinates of the (rotated) pixel for every λ > 0, rotation, coefficient set and pixel but the origin (surface_grad_true_gradient = front end composed with cartesian_gradient_true). New correspondence streams: order (explicit max_order 0..5, keyword and positional), gradgrid (aberration_surface_grad on H≠W grids), twin (same coefficients accepted twice — validators, standardize, two HyperparameterState incl. copy(), two ProbePixelated, two DirectPtychography — the first result / object mutated or cleared in between), fixed blocks for the top harmonics, the atan2 branch cut and every quadrant, both signs of C10 × astigmatism angle × rotation × H<W / H>W in the fit.",
+    "note": "Trusted: Lean kernel + propext/Classical.choice/Quot.sound; the translator (validated by the correspondence on the same functions); IEEE rounding and torch are outside the theorems. Hand-modelled and only tied by correspondence: torch.linalg.lstsq (as normal equations), torch.linalg.svd (abstract, assumed to meet IsSVD), the k-grid/mask plumbing of the fit (pinned to a template by the translator) and of _return_lateral_shifts (fftfreq grid, `/2/np.pi`), the plumbing around the alias loops (key validation, nested-dict recursion, zero fill, float32 conversion). Labels outside the 25-label table (e.g. 'C77_a') are outside the model. Gradient theorems are partial derivatives (HasDerivAt), not a joint Fréchet derivative. Round 5/6: the state machines (PState, HState) are hand models tied by correspondence only (still not translated / traced — open end of round 6); the grid glue of aberration_surface_grad (fftfreq, wavelength from energy) is hand-written and tied by the gradgrid stream; the search write-back is modelled GIVEN the best-parameter dict the search returns (optuna / the grid loop themselves are not modelled; the real methods run on an attribute stub whose reconstruct() only resolves the coefficients, and on a real tiny DirectPtychography in the entry stream); nested dicts inside probe_params are modelled to depth 1; the top-level 'defocus' REPORT of probe_params is not kept in step with C10 by the code (probe_params_reported_defocus_counterexample, replayed every run) — no accepted alias is misread, so this is recorded, not flagged.",
     "technique": "Lean 4 proof over translator output (Python ast → Lean, regenerated every run) + model-vs-implementation Float correspondence + autograd/consistency predicates on the real code",
 }
 RULE = ("alias values are drawn over the numeric forms in FORMS (Python int/float/bool, NumPy scalars and 0-d arrays, "
@@ -27,10 +27,15 @@ RULE = ("alias values are drawn over the numeric forms in FORMS (Python int/floa
         "forms float() rejects; unknown keys; nested aberration_coefs), an hstate case a HyperparameterState with 2-6 operations "
         "(reads with overrides, clears, grid/optuna search write-backs through the real methods), an entry case one DirectPtychography "
         "entry point called with the alias form and the canonical form of the same coefficients, a mergehist case one tensor prior "
-        "merged twice; distinct = (stream, object kind, max order, #steps, #rejected, error classes, nesting / op kinds / entry, keys)")
+        "merged twice; distinct = (stream, object kind, max order, #steps, #rejected, error classes, nesting / op kinds / entry, keys); "
+        "round 6 (harness/props/c12_g6.py, FIXED blocks first, independent of VERIF_SEED): an order case is one polar set converted at one explicit "
+        "max_order k in 0..5 (all symbols / only the top harmonics / top harmonics with m·φ = ±π), a gradgrid case one (gpts, sampling, energy, "
+        "rotation, coefficient set) of aberration_surface_grad, a twin case one coefficient dict accepted twice by one routine / two objects with "
+        "the first result or object spoiled in between (clear / set / del / in-place scale); distinct = (stream, k or kind, variant, orders, H vs W, rotation)")
 TRUSTED = ["harness/translator/aberr2lean.py (partial evaluator, grammar in its docstring); cross-checked by the Float correspondence on every translated function",
            "torch elementwise kernels, torch.linalg.lstsq/svd, torch autograd (the gradient oracle of the failing-input search)",
-           "harness/props/c12_ext.py: the layering oracle (last writer wins through canonical names) and the attribute stub standing for DirectPtychography in the hstate stream; optuna's samplers"]
+           "harness/props/c12_ext.py: the layering oracle (last writer wins through canonical names) and the attribute stub standing for DirectPtychography in the hstate stream; optuna's samplers",
+           "harness/props/c12_g6.py: the twin oracle (each object / result denotes its OWN input, whatever happened to its twin); `electron_wavelength_angstrom` (taken from the real code in the gradgrid stream)"]
 ASSUMPTIONS = ["float `1/3`, `0.5`, … in the source are read as exact rationals in the ℝ theorems (IEEE rounding is measured, not proved)",
                "`if any(k in coefs …)` guards are emitted both unguarded and faithfully (`…_guarded`, run by the driver); guards_transparent proves the two agree for every set of present keys when absent keys read 0",
                "a coefficient value is modelled as a real number with a numeric type (TVal: exact | unsigned b | signed b); `float(v)` reads it, `-v` negates in that type; NumPy/torch bool negation (which raises) is not modelled",
@@ -42,7 +47,9 @@ ASSUMPTIONS = ["float `1/3`, `0.5`, … in the source are read as exact rational
                "a value is None | a number (read by float()) | a value float() rejects with a probed exception class; the exception class is what is compared, never the message",
                "a rejected probe_params assignment must leave _probe_params as it was (the property's alias clause after a REJECTED call followed by valid reads); the caller's dict (which the setter mutates on success) is not compared",
                "alias form vs canonical form of one coefficient set must give the same results in every DirectPtychography entry point (reads of .aberration_coefs exactly; tensors to 1e-5 relative)",
-               "fit identifiable domain used by the generator: |θ| ≤ 0.47π, |C10| ≥ 1.5·C12 > 0, φ12 ∈ (−π/2, π/2], ≥ 6 bright-field pixels spanning rank 2, only C10/C12/phi12 non-zero"]
+               "fit identifiable domain used by the generator: |θ| ≤ 0.47π, |C10| ≥ 1.5·C12 > 0, φ12 ∈ (−π/2, π/2], ≥ 6 bright-field pixels spanning rank 2, only C10/C12/phi12 non-zero",
+               "round 6: a label / symbol ABSENT from a conversion result reads 0 (as every consumer of these dicts reads it) — a dropped key is a failed round trip with the coefficient dict as failing input; `max_order` is modelled for every natural number, compared for 0..5 (f-string names of two-digit orders are in the model but not driven)",
+               "round 6: two objects built from the same / an equal coefficient dict are independent (HyperparameterState, its copy(), ProbePixelated, DirectPtychography), the dict returned by current_aberrations() belongs to the caller, and the caller's input dict is not modified by the validators"]
 EXPLANATION = ("Theorems in Props/C12.lean are about Generated/Aberration.lean, which pregenerate() rebuilds from the "
                "function bodies in the repo under test on every run; every generated definition, the alias models and "
                "the fit model are executed at Float by the Lean driver and compared with the real torch functions.")
